@@ -90,7 +90,7 @@ func c13r1(r *R) {
 					return true
 				}
 				// a helper of the package that itself reports (extracted "finish" functions)
-				if strings.Contains(fname(c), "martian.") && c.Name() != "traceWroteResponse" && len(calls(c, nameIs("(*martian.Proxy).traceWroteResponse"))) > 0 {
+				if strings.Contains(fname(c), "martian.") && refName(c) != "traceWroteResponse" && len(calls(c, nameIs("(*martian.Proxy).traceWroteResponse"))) > 0 {
 					return true
 				}
 				return false
@@ -251,7 +251,7 @@ func c13r2(r *R) {
 				return
 			}
 			n++
-			okSite := fn.Name() == "handleUpgradeResponse" && strings.HasSuffix(describe(st.Addr), ".Body")
+			okSite := refName(fn) == "handleUpgradeResponse" && strings.HasSuffix(describe(st.Addr), ".Body")
 			r.check(okSite, fname(fn)+"#store(panicBody)", st.Pos(), "upgrade hand-over marks the response whose body went to the tunnel", "the upgrade marker body is stored outside the upgrade hand-over: skipTraceWroteResponse would treat that response as tunnelled")
 		})
 	}
@@ -511,7 +511,7 @@ func c13r4(r *R) {
 	// loads of the field other than those
 	for _, fn := range r.modFuncs() {
 		for _, ins := range fieldAccesses(fn, "conntrack.closeListener", "onClose") {
-			if fn == cl || fn.Name() == "BuildWithObserver" {
+			if fn == cl || refName(fn) == "BuildWithObserver" {
 				continue
 			}
 			r.bad(fname(fn)+"#access(onClose)", ins.Pos(), "close callback accessed outside the once-only path")
